@@ -583,34 +583,36 @@ def twin_c16(prog, impl_run, rnd):
             p["ops"] = ops[:lo] + [ops[k]] + ops[lo:k] + ops[k + 1:]
             idx = list(range(0, lo)) + [k] + list(range(lo, k)) + list(range(k + 1, len(ops)))
             variants.append(("scope creation op %d moved before ops %d..%d" % (k, lo, k - 1), p, idx))
-    # defer flip, only if no cycle verdict anywhere
-    if not any((verr(o["v"]) or {}).get("cyc") for o in res):
-        p = copy.deepcopy(base)
-        p["cfg"]["defer"] = not p["cfg"]["defer"]
-        variants.append(("DeferAcyclicVerification flipped", p, list(range(len(ops)))))
     for (what, p, idx) in variants:
-        t1 = impl_run(p)
-        r1 = ops_of(t1)
-        if fatal_of(t1) != fatal_of(t0) or len(r1) != len(res):
-            bad.append("%s: process-level outcome differs (%s vs %s)" % (what, fatal_of(t0), fatal_of(t1)))
-            continue
-        for newpos, old in enumerate(idx):
-            a, b = res[old], r1[newpos]
-            if ops[old]["op"] in ("provide", "decorate"):
-                if vclass(a["v"]) != vclass(b["v"]) and "moved" not in what and "flipped" not in what:
-                    bad.append("%s: registration op %d is %s in one order and %s in the other" % (what, old, vclass(a["v"]), vclass(b["v"])))
-                    break
-                if vclass(a["v"]) != vclass(b["v"]):
-                    bad.append("%s: registration op %d verdict %s vs %s" % (what, old, vclass(a["v"]), vclass(b["v"])))
-                    break
-            elif ops[old]["op"] == "invoke":
-                if vclass(a["v"]) != vclass(b["v"]):
-                    bad.append("%s: Invoke op %d verdict %s vs %s" % (what, old, json.dumps(a["v"])[:120], json.dumps(b["v"])[:120]))
-                    break
-                if a["v"] == "ok" and wiring_set(a) != wiring_set(b):
-                    bad.append("%s: Invoke op %d wires different values" % (what, old))
-                    break
+        bad += compare_variant(what, ops, res, t0, impl_run(p), idx)
+    # DeferAcyclicVerification: compared against the eager run, and only when the eager run reports no cycle
+    eager = copy.deepcopy(base)
+    eager["cfg"]["defer"] = False
+    te = t0 if not base["cfg"]["defer"] else impl_run(eager)
+    if len(ops_of(te)) == len(ops) and not fatal_of(te) and not any((verr(o["v"]) or {}).get("cyc") for o in ops_of(te)):
+        lazy = copy.deepcopy(base)
+        lazy["cfg"]["defer"] = True
+        tl = t0 if base["cfg"]["defer"] else impl_run(lazy)
+        bad += compare_variant("DeferAcyclicVerification enabled", ops, ops_of(te), te, tl, list(range(len(ops))))
     return bad, base
+
+
+def compare_variant(what, ops, res, t0, t1, idx):
+    """compare the results of a variant history (new position -> old index in idx) with the base"""
+    r1 = ops_of(t1)
+    if fatal_of(t1) != fatal_of(t0) or len(r1) != len(res):
+        return ["%s: process-level outcome differs (%s vs %s)" % (what, fatal_of(t0), fatal_of(t1))]
+    for newpos, old in enumerate(idx):
+        a, b = res[old], r1[newpos]
+        if ops[old]["op"] in ("provide", "decorate"):
+            if vclass(a["v"]) != vclass(b["v"]):
+                return ["%s: registration op %d is %s in one history and %s in the other" % (what, old, vclass(a["v"]), vclass(b["v"]))]
+        elif ops[old]["op"] == "invoke":
+            if vclass(a["v"]) != vclass(b["v"]):
+                return ["%s: Invoke op %d verdict %s vs %s" % (what, old, json.dumps(a["v"])[:120], json.dumps(b["v"])[:120])]
+            if a["v"] == "ok" and wiring_set(a) != wiring_set(b):
+                return ["%s: Invoke op %d wires different values" % (what, old)]
+    return []
 
 
 def twin_c17(prog, impl_run):
